@@ -66,6 +66,12 @@ def generate(rng, tier):
                         c["xmin"] = [0.5 * xs_[0], 0.6 * xs_[1] + 0.4 * xs_[2], xs_[1], 0.0][(X + 2 * Y + rep) % 4]
                         c["desc"]["window"] = "lower limit keyword"
                         c["desc"].pop("fortran", None)
+                    if (X + Y + rep) % 3 == 2 and c["xin"][0] > 0 and c.get("xmin") is None and X in (0, 1, 2):
+                        # S(Qmin) exactly 0 (an S(Q) zero-padded below the measured range): the model is S = 0 on [0, Qmin], its term is not zero
+                        c["yin"] = list(c["yin"])
+                        c["yin"][0] = [0.0, -c["xin"][0], -c["mat"]["bcoh"]][X]
+                        c["int_dtype"] = [c["int_dtype"][0], False, c["int_dtype"][2]]
+                        c["desc"]["S_at_Qmin"] = "exactly 0"
                     # physical-looking S(Q): positive at Qmin
                     c["desc"]["Qmin0"] = c["xin"][0] == 0.0
                     cases.append(c)
